@@ -3,5 +3,9 @@ CONSTANTS W = 5
           WS = 5
           Deep = {}
           OptSet = {"default", "useall", "export", "exporttop", "useall_export", "tng", "tng_export", "tng_exporttop"}
+          Reps = 1
+          RepW = 0
+          Which = "all"
+          MutualFull = FALSE
 INVARIANTS Emit
 CHECK_DEADLOCK FALSE
